@@ -75,6 +75,28 @@ def run(v, O):
     out.append(('unit of the definition', O.same(types[path].unit, first_unit)))
     return out
 '''
+ARR_SRC = '''
+import numpy as np
+def run(v, O):
+    out = []
+    for label, text, path, want, unit in v.cases:
+        r = outcome(lambda: dip_parse(text).data(Format.TUPLE))
+        out.append((f'{label}: parses', O.same(r[0], 'ok')))
+        if r[0] != 'ok': continue
+        got = r[1].get(path)
+        val, u = (got if isinstance(got, tuple) else (got, None))
+        out.append((f'{label}: unit of the definition', O.same(u, unit)))
+        out.append((f'{label}: last assigned values in the definition unit', O.same(bool(np.allclose(np.asarray(val, dtype=float), np.asarray(want, dtype=float), rtol=1e-9)) if val is not None else False, True)))
+    return out
+'''
+ARRAYS = [('float array re-assigned in a smaller prefix', 'a float[2] = [1,2] m\na = [3,4] cm', 'a', [0.03, 0.04], 'm'),
+          ('float array re-assigned in a larger prefix (typed)', 'a float[2] = [1,2] m\na float[2] = [3,4] km', 'a', [3000.0, 4000.0], 'm'),
+          ('float array re-assigned without unit', 'a float[3] = [1,2,3] J\na = [4,5,6]', 'a', [4.0, 5.0, 6.0], 'J'),
+          ('int array re-assigned without unit', 'k int[3] = [1,2,3]\nk = [4,5,6]', 'k', [4, 5, 6], None),
+          ('matrix re-assigned in another prefix', 'm float[2,2] = [[1,2],[3,4]] km\nm = [[5,6],[7,8]] m', 'm', [[0.005, 0.006], [0.007, 0.008]], 'km'),
+          ('array re-assigned twice, last one wins', 'a float[2] = [1,2] m\na = [3,4] cm\na = [5,6] mm', 'a', [0.005, 0.006], 'm'),
+          ('array with negative and zero entries in another unit', 'a float[3] = [1,2,3] s\na = [-1,0,2.5] ms', 'a', [-0.001, 0.0, 0.0025], 's'),
+          ('array in a group, dotted modification', 'g\n  a float[2] = [1,2] kg\ng.a = [500,1500] g', 'g.a', [0.5, 1.5], 'kg')]
 BOOLSTR_SRC = '''
 def run(v, O):
     lits = []
@@ -166,6 +188,7 @@ def scenarios(tier, seed):
                 ('modification of an undefined node', 'a = {x} m'), ('unit on a boolean', 'b bool = true m'), ('bool assigned a number', 'b bool = {k}')]
     accepted = [('declaration then typed value of the same type in another prefix', 'a float m\na float = {x} km'), ('declaration then value', 'a float m\na = {x}'), ('declaration then value in another prefix', 'a float m\na = {x} cm'),
                 ('constant never modified', 'a float = {x} m\n  !constant\nb float = {y} m'), ('typed modification of the same type', 'a float = {x} m\na float = {y} m')]
+    S.append(Scenario('arrays', ARR_SRC, {}, consts={'cases': ARRAYS}, preamble=PRE, what='array nodes assigned more than once (concrete)', samples=1))
     S.append(Scenario('reject', REJECT_SRC, {'x': 'real', 'y': 'real', 'k': 'int'}, consts={'cases': rejected, 'accepted': accepted}, preamble=PRE,
                       what='inputs that must make parsing fail / succeed', samples=2))
     S.append(Scenario('canary/value', NUM_SRC.replace('vals[last] * (factor(ul) / factor(first_unit))', 'vals[0] * (factor(ul) / factor(first_unit))'), {'x0': 'real', 'x1': 'real'},
@@ -183,4 +206,16 @@ def tasks(tier, seed):
 def run_task(task):
     S = scenarios(task['tier'], task['seed'])
     i, k = task['slice']
-    return run_scenarios(S[i::k], dipkit.dip_patches, timeout_ms=20000, seed=task['seed'], wall_s=600, max_paths=5000)
+    mine = S[i::k]
+    res = run_scenarios([sc for sc in mine if sc.inputs], dipkit.dip_patches, timeout_ms=20000, seed=task['seed'], wall_s=600, max_paths=5000)
+    import contextlib
+    res2 = run_scenarios([sc for sc in mine if not sc.inputs], contextlib.nullcontext, timeout_ms=20000, seed=task['seed'])     # concrete texts run on the unpatched library
+    for key, val in res2.items():
+        if key == 'stats':
+            for kk, vv in val.items():
+                res['stats'][kk] = res['stats'].get(kk, 0) + vv
+        elif isinstance(val, list):
+            res[key] = res.get(key, []) + val
+        else:
+            res[key] = res.get(key, 0) + val
+    return res
